@@ -95,6 +95,125 @@ theorem gmut_error_fst (fl : Flavor) (g : Graph) (m : GMut) (e : Err) (h : (gmut
   | cap c => simp [gmut] at h
   | init l => simp [gmut] at h
 
+/-! ## route decoding: the list-parameterised decoders against the instance-level ones -/
+
+/-- looking the selected positions up is the `filterMap` over the indexed vector of `SeqInst.selected` /
+    `ArcInst.selected` -/
+theorem filterMap_selectedIdx {α : Type} (f : Nat → Option α) (x : List Rat) :
+    (selectedIdx x).filterMap f
+      = ((List.range x.length).zip x).filterMap fun (k, v) => if v = 0 then none else f k := by
+  unfold selectedIdx
+  rw [List.filterMap_filterMap]
+  congr 1
+  funext e
+  obtain ⟨k, v⟩ := e
+  by_cases h : v = 0 <;> simp [h]
+
+theorem SeqInst.selected_eq (I : SeqInst) (x : List Rat) : I.selected x = (selectedIdx x).filterMap I.varTuple :=
+  (filterMap_selectedIdx I.varTuple x).symm
+
+theorem ArcInst.selected_eq (I : ArcInst) (x : List Rat) : I.selected x = (selectedIdx x).filterMap I.varTuple :=
+  (filterMap_selectedIdx I.varTuple x).symm
+
+/-- an in-range lookup list has as many elements as there are positions -/
+theorem filterMap_getElem?_length {α : Type} (vm : List α) (sel : List Nat)
+    (h : sel.any (fun k => decide (vm.length ≤ k)) = false) :
+    (sel.filterMap fun k => vm[k]?).length = sel.length := by
+  induction sel with
+  | nil => rfl
+  | cons k rest ih =>
+    rw [List.any_cons, Bool.or_eq_false_iff] at h
+    have hk : k < vm.length := by
+      have := h.1
+      simp only [decide_eq_false_iff_not, Nat.not_le] at this
+      exact this
+    rw [List.filterMap_cons, List.getElem?_eq_getElem hk]
+    simp only [List.length_cons, ih h.2]
+
+theorem SeqInst.decode_go_eq (I : SeqInst) (v fuel : Nat) (ts : List STup) (acc : List (List Nat)) :
+    SeqInst.decode.go I v fuel ts acc = seqDecodeGo I.g I.L v fuel ts acc := by
+  induction fuel generalizing v ts acc with
+  | zero => unfold SeqInst.decode.go seqDecodeGo; rfl
+  | succ n ih =>
+    unfold SeqInst.decode.go seqDecodeGo
+    cases decodeVehicle I.g v I.L 0 ts none [] with
+    | none => rfl
+    | some p => exact ih _ _ _
+
+/-- **`SeqInst.decode` is the list-parameterised decoder on the instance's own tuples** -/
+theorem SeqInst.decode_eq_tuples (I : SeqInst) (x : List Rat) :
+    I.decode x = if (I.selected x).isEmpty then .ok []
+                 else seqDecodeTuples I.g I.V I.L (I.selected x ++ I.fixedOnes) := by
+  unfold SeqInst.decode seqDecodeTuples
+  simp only [SeqInst.decode_go_eq]
+
+theorem ArcInst.decode_go_eq (fuel : Nat) (ts : List ATup) (acc : List (List (Nat × Rat))) :
+    ArcInst.decode.go fuel ts acc = arcDecodeGo fuel ts acc := by
+  induction fuel generalizing ts acc with
+  | zero => unfold ArcInst.decode.go arcDecodeGo; rfl
+  | succ n ih =>
+    cases ts with
+    | nil => unfold ArcInst.decode.go arcDecodeGo; rfl
+    | cons arc rest =>
+      unfold ArcInst.decode.go arcDecodeGo
+      exact ih _ _
+
+/-- **`ArcInst.decode` is the list-parameterised decoder on the instance's own tuples** -/
+theorem ArcInst.decode_eq_tuples (I : ArcInst) (x : List Rat) : I.decode x = arcDecodeTuples (I.selected x) := by
+  unfold ArcInst.decode arcDecodeTuples
+  simp only [ArcInst.decode_go_eq]
+
+theorem ArcInst.decodeAsserts_eq_tuples (I : ArcInst) (x : List Rat) :
+    I.decodeAsserts x = arcAssertsTuples I.g (I.selected x) := rfl
+
+/-- the cache-free `get_routes` of the arc specification against `ArcInst.decode` / `ArcInst.decodeAsserts`: when at
+    least one position is selected and every selected position is a variable index -/
+theorem ArcInst.getRoutes_eq_decode (I : ArcInst) (x : List Rat) (hne : selectedIdx x ≠ [])
+    (hr : ∀ k ∈ selectedIdx x, k < I.vars.length) :
+    I.getRoutes x = if I.decodeAsserts x then .ok (I.decode x) else .error .assert := by
+  have hany : (selectedIdx x).any (fun k => decide (I.vars.length ≤ k)) = false := by
+    rw [List.any_eq_false]
+    intro k hk
+    simp only [decide_eq_true_eq, Nat.not_le]
+    exact hr k hk
+  have hemp : (selectedIdx x).isEmpty = false := by
+    cases h : selectedIdx x with
+    | nil => exact absurd h hne
+    | cons a l => rfl
+  unfold ArcInst.getRoutes arcRoutesFrom
+  simp only [hemp, hany, Bool.false_eq_true, if_false]
+  rw [ArcInst.decode_eq_tuples, ArcInst.decodeAsserts_eq_tuples, ArcInst.selected_eq]
+  rfl
+
+/-- the cache-free `get_routes` of the sequence specification against `SeqInst.decode`, under the same hypotheses -/
+theorem SeqInst.getRoutes_eq_decode (I : SeqInst) (x : List Rat) (hne : selectedIdx x ≠ [])
+    (hr : ∀ k ∈ selectedIdx x, k < I.vars.length) : I.getRoutes x = I.decode x := by
+  have hany : (selectedIdx x).any (fun k => decide (I.vars.length ≤ k)) = false := by
+    rw [List.any_eq_false]
+    intro k hk
+    simp only [decide_eq_true_eq, Nat.not_le]
+    exact hr k hk
+  have hemp : (selectedIdx x).isEmpty = false := by
+    cases h : selectedIdx x with
+    | nil => exact absurd h hne
+    | cons a l => rfl
+  have hsel : (I.selected x).isEmpty = false := by
+    have hl := filterMap_getElem?_length I.vars (selectedIdx x) hany
+    rw [SeqInst.selected_eq]
+    cases h : (selectedIdx x).filterMap I.varTuple with
+    | nil =>
+      have h' : (selectedIdx x).filterMap (fun k => I.vars[k]?) = [] := h
+      rw [h'] at hl
+      cases h2 : selectedIdx x with
+      | nil => exact absurd h2 hne
+      | cons a l => rw [h2] at hl; simp at hl
+    | cons a l => rfl
+  rw [SeqInst.decode_eq_tuples, hsel]
+  unfold SeqInst.getRoutes seqRoutesFrom
+  simp only [hemp, hany, Bool.false_eq_true, if_false]
+  rw [SeqInst.selected_eq]
+  rfl
+
 /-! ## arc object -/
 
 /-- flag set ⇒ the cached value is the value computed afresh from the current instance -/
@@ -155,6 +274,19 @@ theorem getVarTupleIndex_eq {o : ArcObj} (hc : o.Coherent) (k : Nat) :
   unfold getVarTupleIndex
   rw [enum_eq hc]
   rfl
+
+/-- `get_routes` on a coherent object: the reply of the cache-free `ArcInst.getRoutes`; the object is untouched when
+    nothing is selected and enumerated otherwise -/
+theorem getRoutes_eq {o : ArcObj} (hc : o.Coherent) (x : List Rat) :
+    o.getRoutes x = (if (selectedIdx x).isEmpty then o else o.E, o.inst.getRoutes x) := by
+  unfold getRoutes ArcInst.getRoutes
+  simp only
+  cases h : (selectedIdx x).isEmpty with
+  | true => simp
+  | false =>
+    simp only [Bool.false_eq_true, if_false]
+    rw [enum_eq hc]
+    rfl
 
 theorem data_c (I : ArcInst) : I.data.c = I.vars.map (arcTupCost I) := rfl
 theorem data_n (I : ArcInst) : I.data.n = I.vars.length := rfl
@@ -784,6 +916,8 @@ theorem arc_heurP_emptyGrid_ok (I : ArcInst) (hT : I.T = []) (hv : I.g.estimateM
 /-- flag set ⇒ the cached value is the value computed afresh from the current instance -/
 structure SeqObj.Coherent (o : SeqObj) : Prop where
   vars : o.variablesEnumerated = true → o.varMapping = o.inst.vars ∧ o.numVariables = o.inst.vars.length
+  /-- the cached `fixed_values` (its entries equal to 1) are those of the current instance -/
+  fixed : o.variablesEnumerated = true → o.fixedOnes = o.inst.fixedOnes
   obj : o.objectiveBuilt = true →
     o.objectiveC = o.inst.objective.1 ∧ o.objectiveQ = o.inst.objective.2 ∧ o.objQShape = o.inst.vars.length
   lin : o.linConBuilt = true →
@@ -794,17 +928,18 @@ structure SeqObj.Coherent (o : SeqObj) : Prop where
 namespace SeqObj
 
 theorem coherent_init (I : SeqInst) : (SeqObj.init I).Coherent :=
-  ⟨by simp [SeqObj.init], by simp [SeqObj.init], by simp [SeqObj.init], by simp [SeqObj.init]⟩
+  ⟨by simp [SeqObj.init], by simp [SeqObj.init], by simp [SeqObj.init], by simp [SeqObj.init], by simp [SeqObj.init]⟩
 
 /-- all four flags unset -/
 def Unset (o : SeqObj) : Prop :=
   o.variablesEnumerated = false ∧ o.objectiveBuilt = false ∧ o.linConBuilt = false ∧ o.quadConBuilt = false
 
 theorem Unset.coherent {o : SeqObj} (h : Unset o) : o.Coherent :=
-  ⟨by simp [h.1], by simp [h.2.1], by simp [h.2.2.1], by simp [h.2.2.2]⟩
+  ⟨by simp [h.1], by simp [h.1], by simp [h.2.1], by simp [h.2.2.1], by simp [h.2.2.2]⟩
 
 def E (o : SeqObj) : SeqObj :=
-  { o with varMapping := o.inst.vars, numVariables := o.inst.vars.length, variablesEnumerated := true }
+  { o with varMapping := o.inst.vars, numVariables := o.inst.vars.length, fixedOnes := o.inst.fixedOnes,
+           variablesEnumerated := true }
 
 theorem enum_eq {o : SeqObj} (hc : o.Coherent) : o.enumerateVariables = o.E := by
   unfold enumerateVariables E
@@ -812,11 +947,12 @@ theorem enum_eq {o : SeqObj} (hc : o.Coherent) : o.enumerateVariables = o.E := b
   | false => simp
   | true =>
     obtain ⟨h1, h2⟩ := hc.vars h
+    have h3 := hc.fixed h
     cases o
     simp_all
 
 theorem coherent_E {o : SeqObj} (hc : o.Coherent) : o.E.Coherent :=
-  ⟨fun _ => ⟨rfl, rfl⟩, hc.obj, hc.lin, hc.quad⟩
+  ⟨fun _ => ⟨rfl, rfl⟩, fun _ => rfl, hc.obj, hc.lin, hc.quad⟩
 
 theorem E_E (o : SeqObj) : o.E.E = o.E := rfl
 
@@ -826,6 +962,7 @@ theorem getNum_eq {o : SeqObj} (hc : o.Coherent) : o.getNumVariables = (o.E, o.i
   | false => simp [enum_eq hc, E]
   | true =>
     obtain ⟨h1, h2⟩ := hc.vars h
+    have h3 := hc.fixed h
     have : o = o.E := by
       unfold E
       cases o
@@ -843,6 +980,20 @@ theorem getVarTupleIndex_eq {o : SeqObj} (hc : o.Coherent) (k : Nat) :
   unfold getVarTupleIndex
   rw [enum_eq hc]
   rfl
+
+/-- `get_routes` on a coherent object: the reply of the cache-free `SeqInst.getRoutes` (the cached `fixed_values` read
+    after the enumeration are the fresh ones); the object is untouched when nothing is selected and enumerated
+    otherwise -/
+theorem getRoutes_eq {o : SeqObj} (hc : o.Coherent) (x : List Rat) :
+    o.getRoutes x = (if (selectedIdx x).isEmpty then o else o.E, o.inst.getRoutes x) := by
+  unfold getRoutes SeqInst.getRoutes
+  simp only
+  cases h : (selectedIdx x).isEmpty with
+  | true => simp
+  | false =>
+    simp only [Bool.false_eq_true, if_false]
+    rw [enum_eq hc]
+    rfl
 
 def QPost (o o' : SeqObj) : Prop := o'.Coherent ∧ o'.inst = o.inst ∧ o'.sol = o.sol
 
@@ -874,7 +1025,7 @@ theorem buildObjective_spec {o : SeqObj} (hc : o.Coherent) :
   cases h : o.objectiveBuilt with
   | true => exact ⟨QPost.refl hc, hc.obj h⟩
   | false =>
-    exact ⟨⟨⟨fun _ => ⟨rfl, rfl⟩, fun _ => ⟨rfl, rfl, rfl⟩, hc.lin, hc.quad⟩, rfl, rfl⟩, rfl, rfl, rfl⟩
+    exact ⟨⟨⟨fun _ => ⟨rfl, rfl⟩, fun _ => rfl, fun _ => ⟨rfl, rfl, rfl⟩, hc.lin, hc.quad⟩, rfl, rfl⟩, rfl, rfl, rfl⟩
 
 theorem getObjectiveData_spec {o : SeqObj} (hc : o.Coherent) :
     QPost o o.getObjectiveData.1 ∧
@@ -907,7 +1058,7 @@ theorem buildLinear_spec {o : SeqObj} (hc : o.Coherent) :
   cases h : o.linConBuilt with
   | true => exact ⟨QPost.refl hc, h⟩
   | false =>
-    exact ⟨⟨⟨fun _ => ⟨rfl, rfl⟩, hc.obj, fun _ => ⟨rfl, rfl, rfl⟩, hc.quad⟩, rfl, rfl⟩, rfl⟩
+    exact ⟨⟨⟨fun _ => ⟨rfl, rfl⟩, fun _ => rfl, hc.obj, fun _ => ⟨rfl, rfl, rfl⟩, hc.quad⟩, rfl, rfl⟩, rfl⟩
 
 theorem buildQuadratic_spec {o : SeqObj} (hc : o.Coherent) :
     QPost o o.buildQuadraticConstraints.1 ∧ o.buildQuadraticConstraints.1.linConBuilt = o.linConBuilt ∧
@@ -933,7 +1084,8 @@ theorem buildQuadratic_spec {o : SeqObj} (hc : o.Coherent) :
     | some R =>
       simp only [getNum_eq (coherent_E hc), E_E]
       have hE' := coherent_E hc
-      exact ⟨⟨⟨fun _ => ⟨rfl, rfl⟩, hE'.obj, hE'.lin, fun _ => ⟨hq, rfl⟩⟩, rfl, rfl⟩, rfl, trivial, trivial, rfl⟩
+      exact ⟨⟨⟨fun _ => ⟨rfl, rfl⟩, fun _ => rfl, hE'.obj, hE'.lin, fun _ => ⟨hq, rfl⟩⟩, rfl, rfl⟩, rfl, trivial, trivial,
+        rfl⟩
 
 theorem getConstraintData_spec {o : SeqObj} (hc : o.Coherent) :
     QPost o o.getConstraintData.1 ∧
@@ -1354,8 +1506,8 @@ theorem storeSolution_spec {o : SeqObj} (hc : o.Coherent) (used : List STup) :
   rw [storeSolution_eq hc]
   have hE := coherent_E hc
   cases lookupAllI o.inst.varIndex used [] with
-  | none => exact ⟨⟨hE.vars, hE.obj, hE.lin, hE.quad⟩, rfl, rfl, rfl⟩
-  | some idxs => exact ⟨⟨hE.vars, hE.obj, hE.lin, hE.quad⟩, rfl, rfl, rfl⟩
+  | none => exact ⟨⟨hE.vars, hE.fixed, hE.obj, hE.lin, hE.quad⟩, rfl, rfl, rfl⟩
+  | some idxs => exact ⟨⟨hE.vars, hE.fixed, hE.obj, hE.lin, hE.quad⟩, rfl, rfl, rfl⟩
 
 /-- the heuristic on a coherent object, with the loop-head reset of the code and ANY harmless flag action at the
     explicit reset site of `_ensure_exit_arc`: coherent afterwards (also when it raises), the problem data are those of
